@@ -162,6 +162,9 @@ def run(model: Model, rep, tier: str) -> None:
              "skfem.autodiff.helpers return identical expressions")
     rep.rule("C20-R1-inv", "inv(A) * A == identity (rational functions, "
              "cross-multiplied) and uses the module's own det")
+    rep.rule("C20-R3", "autodiff producer: Jacobian slot (direction j, test "
+             "i) -> row DOFs of i, column DOFs of j, one dx and quadrature "
+             "sum; residual negated")
     results: Dict[tuple, Any] = {}
     for n in (2, 3):
         sp = specs(n)
@@ -278,6 +281,28 @@ MUTANTS = [
     ("jax transpose is the identity",
      (_J, "jnp.einsum('ij...->ji...', T)", "jnp.einsum('ij...->ij...', T)"),
      "C20-R1"),
+    ("autodiff: rows follow the direction, columns the test function",
+     ("skfem/autodiff/__init__.py",
+      "                rows[ixs] = basis.element_dofs[i]\n"
+      "                cols[ixs] = basis.element_dofs[j]",
+      "                rows[ixs] = basis.element_dofs[j]\n"
+      "                cols[ixs] = basis.element_dofs[i]"), "C20-R3"),
+    ("autodiff: residual returned with the wrong sign",
+     ("skfem/autodiff/__init__.py", "                -data1,",
+      "                data1,"), "C20-R3"),
+    ("autodiff: Jacobian slot stride off by one block",
+     ("skfem/autodiff/__init__.py",
+      "                ixs = slice(nt * (basis.Nbfun * j + i),\n"
+      "                            nt * (basis.Nbfun * j + i + 1))",
+      "                ixs = slice(nt * (basis.Nbfun * i + j),\n"
+      "                            nt * (basis.Nbfun * i + j + 1))"),
+     "C20-R3"),
+    ("autodiff: derivative applied to the test function",
+     ("skfem/autodiff/__init__.py",
+      "                DFU = DF(tuple(JaxDiscreteField(*c.astuple)\n"
+      "                               for c in basis.basis[j]))",
+      "                DFU = DF(tuple(JaxDiscreteField(*c.astuple)\n"
+      "                               for c in basis.basis[i]))"), "C20-R3"),
     ("eye: off-diagonal ones",
      (_H, "[[w if i == j else 0. * w for i in range(n)]",
       "[[w if i <= j else 0. * w for i in range(n)]"), "C20-R1"),
